@@ -537,14 +537,19 @@ class DiscoveryScenario(Scenario):
                     w.delete(NAMESPACES, None, 'n1')
                 elif action == 'addcrd':
                     w.add_kind(WIDGETS)
-                    w.create(CRDS, None, 'kopfwidgets.kopf.dev', _crd_body(WIDGETS, ['v1'], ('widgets',)))
+                    w.create(CRDS, None, 'kopfwidgets.kopf.dev', dict(_crd_body(WIDGETS, ['v1'], ('widgets',)), metadata={'generation': 1}))
+                elif action == 'addcrd-slow':     # the CRD object is there, but the API server does not serve (and discovery does not list) the kind yet
+                    w.create(CRDS, None, 'kopfwidgets.kopf.dev', dict(_crd_body(WIDGETS, ['v1'], ('widgets',)), metadata={'generation': 1}))
+                elif action == 'establish':       # ... now it does: a status-only update of the CRD (same metadata.generation)
+                    w.add_kind(WIDGETS)
+                    w.merge(CRDS, None, 'kopfwidgets.kopf.dev', {'status': {'conditions': [{'type': 'Established', 'status': 'True'}]}})
                 elif action == 'delcrd':
                     w.remove_kind(WIDGETS)
                     w.delete(CRDS, None, 'kopfwidgets.kopf.dev')
                 elif action == 'decat':       # the kind leaves the category the handler selects by
                     w.remove_kind(WIDGETS)
                     w.add_kind(dataclasses.replace(WIDGETS, categories=()))
-                    w.merge(CRDS, None, 'kopfwidgets.kopf.dev', _crd_body(WIDGETS, ['v1'], ()))
+                    w.merge(CRDS, None, 'kopfwidgets.kopf.dev', dict(_crd_body(WIDGETS, ['v1'], ()), metadata={'generation': 2}))
                 elif action == 'addver':      # a new, now preferred, version of the kind selected by name
                     w.add_kind(KEX_V2)
                     w.preferred['kopf.dev'] = 'v2'     # type: ignore[attr-defined]
@@ -594,14 +599,22 @@ class DiscoveryScenario(Scenario):
 
 
 def discovery_scenarios(tier: str) -> list[DiscoveryScenario]:
-    alphabet = ['addns', 'delns', 'addcrd', 'delcrd', 'decat', 'addver', 'delver']
+    alphabet = ['addns', 'delns', 'addcrd', 'delcrd', 'decat', 'addver', 'delver', 'addcrd-slow', 'establish']
     depth = 3 if tier == 'quick' else 4
     out = []
     for d in range(0, depth + 1):
         for combo in itertools.product(alphabet, repeat=d):
-            ns = crd = cat = ver = False
+            ns = crd = cat = ver = slow = False
             ok = True
             for a in combo:
+                if a == 'addcrd-slow':
+                    ok &= not crd and not slow; slow = True
+                    continue
+                if a == 'establish':
+                    ok &= slow; slow = False; crd = cat = True
+                    continue
+                if slow and a in ('addcrd', 'delcrd', 'decat'):
+                    ok = False
                 if a == 'addns':
                     ok &= not ns; ns = True
                 elif a == 'delns':
